@@ -74,6 +74,20 @@ CHECKS["C20"] = dict(
         "over symbolic n through the sum-induction lemma (premises discharged, schema trusted).",
    ref="§6 C20")
 
+CHECKS["C11"] = dict(
+   technique="contract-based deductive verification: cons2prim/calc_grad/calc_bc_grad/interp_face and the whole fvm1d.rhs "
+             "executed symbolically from the ast with symbolic ncell; obligations at generic faces/cells; z3",
+   text="Proof for every 1-D reconstruction exported by xnum (MUSCL with every limiter), periodic and non-periodic closure, "
+        "symbolic number of cells: constant data give the cell value at every face; extrapol1 returns the adjacent cell "
+        "values; a linear profile on ANY strictly increasing face distribution is reproduced at every face whose two adjacent "
+        "gradients are interior (smooth limiters: within C12's regularisation tolerance); the named schemes carry the kappa "
+        "of the statement; the space operator of linear convection on the real uniform periodic mesh equals the wrapped "
+        "kappa stencil for symbolic kappa, both convection signs, n>=5 symbolic (seam cells and generic interior cell) and "
+        "n=1..4 concrete.",
+   note=TB + "; mesh contract of C20 as hypothesis for the exactness clauses; 2-D directional stencil is decided with the "
+        "2-D machinery of C14/C15.",
+   ref="§6 C11")
+
 NA = {
  "C04": "convergence of a solve at the design order under mesh refinement is a limit statement over a family of meshes "
         "(and an empirical one for Riemann problems; the reference solutions wrap the external aerokit): no pre/postcondition "
